@@ -218,6 +218,9 @@ func readClusterView(r *messages.Reader) (*ClusterView, error) {
 	if err := r.ReadInto(&viewID, &epoch, &timestamp, &memLen); err != nil {
 		return nil, err
 	}
+	if memLen > maxMapEntries {
+		return nil, fmt.Errorf("member count %d exceeds max %d", memLen, maxMapEntries)
+	}
 	members := make(map[string]*NodeState, memLen)
 	for i := uint32(0); i < memLen; i++ {
 		var id string
